@@ -147,6 +147,11 @@ func (x *Explorer) call(fr *Frame, b *ssa.BasicBlock, idx int, ins *ssa.Call, st
 		})
 		return true
 	}
+	if fnPkgPath(callee) == "regexp" && callee.Signature.Recv() != nil && (strings.HasPrefix(callee.Name(), "Find") || strings.HasPrefix(callee.Name(), "Match")) {
+		// a regular expression applied to a value: recorded so that the identifier rules can ask whether it
+		// accepts every identifier of the kind it is applied to
+		st.events = append(st.events, Event{Kind: "call", Method: "regexp." + callee.Name(), Args: args, Loop: x.curTag, Pos: ins, Fn: fr.fn, Facts: len(st.facts), Seq: len(st.events)})
+	}
 	if strings.Contains(fnPkgPath(callee), "/ibc-go/") {
 		st.events = append(st.events, Event{Kind: "ext", Method: shortFn(callee), Args: args, Loop: x.curTag, Pos: ins, Fn: fr.fn, Facts: len(st.facts), Seq: len(st.events)})
 	}
@@ -192,7 +197,9 @@ func (x *Explorer) shouldInline(fn *ssa.Function, binds []Val) bool {
 	// plain helper functions of the module's other hand-written packages (a date helper moved into
 	// x/ecocredit/basket, a packet builder moved into an internal package): seen through, except the
 	// named API functions the format / validator / query rules reason about as terms (termFuncs)
-	if fn.Signature.Recv() == nil && fn.Parent() == nil && !strings.Contains(pp, "/types/v") {
+	if fn.Signature.Recv() == nil && fn.Parent() == nil && (x.validatorMode || !strings.Contains(pp, "/types/v")) {
+		// (helpers of the message type packages are seen through while a validator is explored: a shared
+		// "validate each element" or "parse each rate" helper is part of the validator)
 		if !termFuncs[shortPkg(pp)+"."+originName(fn)] {
 			return true
 		}
@@ -226,13 +233,12 @@ func (x *Explorer) shouldInline(fn *ssa.Function, binds []Val) bool {
 // rules reason about them by identity (format ⊆ validator language, separator disjointness, timestamp
 // and pagination converters). Everything else that is hand-written in a module package is inlined.
 
-
 var termFuncs = map[string]bool{
 	"x/ecocredit/v3/base.FormatClassID": true, "x/ecocredit/v3/base.FormatProjectID": true, "x/ecocredit/v3/base.FormatBatchDenom": true,
 	"x/ecocredit/v3/base.ValidateClassID": true, "x/ecocredit/v3/base.ValidateProjectID": true, "x/ecocredit/v3/base.ValidateBatchDenom": true,
 	"x/ecocredit/v3/base.ValidateCreditTypeAbbreviation": true, "x/ecocredit/v3/base.ValidateJurisdiction": true,
 	"x/ecocredit/v3/base.GetClassIDFromBatchDenom": true, "x/ecocredit/v3/base.GetClassIDFromProjectID": true, "x/ecocredit/v3/base.GetProjectIDFromBatchDenom": true,
-	"x/ecocredit/v3/base.ExponentToPrefix": true,
+	"x/ecocredit/v3/base.ExponentToPrefix":    true,
 	"x/ecocredit/v3/basket.FormatBasketDenom": true, "x/ecocredit/v3/basket.ValidateBasketDenom": true, "x/ecocredit/v3/basket.ValidateBasketName": true,
 	"x/data/v3.ParseIRI": true, "x/data/v3.validateHash": true,
 	"types/v2.ProtobufToGogoTimestamp": true, "types/v2.GogoToProtobufTimestamp": true,
